@@ -78,6 +78,7 @@ PROPS = {
     ),
     "C18": dict(
         verus=["flatten"],
+        standins=["pagetree"],
         level_text="flatten_page_tree terminates, returns at most MAX_PAGES references and no reference twice, for ANY behaviour of the reader (cyclic, shared, lying trees); document order and attribute inheritance are not decided",
         not_decided="document order equals the DFS order of the real tree, inheritance of Resources/MediaBox/CropBox/Rotate, page_count fallbacks",
     ),
